@@ -37,3 +37,103 @@ Print Assumptions C01_sync_pause.
 (* the regenerated constant is the 33 bit times of the property text *)
 Example C01_sync_pause_is_33_bits : sync_pause_bits = 33.
 Proof. reflexivity. Qed.
+
+(* ------------------------------------------------------------------------------------------ *)
+(* Single-station obligations, second part (Proofs/C01Proofs.v).  The N-station composition - no two
+   transmissions overlap on a shared bus for all jittered schedules - is NOT proved here. *)
+From PB Require Import Tables FdlTables C05Proofs C01Proofs.
+
+(* Who may transmit.  For EVERY station state, input and application list: if a poll transmits, the
+   state BEFORE the poll is
+   - a token-holding state (regenerated `have_token_kind`: UseToken, ClaimToken, AwaitDataResponse,
+     AwaitStatusResponse), or
+   - PassToken, or
+   - CheckTokenPass with the slot time after last_bus_activity expired (the retry of its own token pass), or
+   - ListenToken / ActiveIdle with a pending status request (C01_status_request_is_addressed: such a
+     request was addressed to this station), or
+   - ListenToken / ActiveIdle (or Offline in the poll that takes the station online) with
+     last_bus_activity at least the station's token-lost time-out in the past: the claim.
+   The two hypotheses on the parameters hold for everything the builder produces (C01_builder_timeouts). *)
+Theorem C01_who_may_transmit : forall (A : Type) (ops : app_ops A) (f : fdl) (now : Z) (pin : phy_in) (apps : list A)
+                                      (f' : fdl) (o : phy_out) (a : list A) (c : list call) (wire : bytes),
+  poll ops f now pin apps = Ok (f', o, a, c) -> tx o = Some wire ->
+  0 <= slot_time (f_p f) -> 0 < token_lost_timeout (f_p f) ->
+  have_token_kind (kind_of (f_state f)) = true \/
+  kind_of (f_state f) = KPassToken \/
+  (kind_of (f_state f) = KCheckTokenPass /\ exists l, f_lba f = Some l /\ l + slot_time (f_p f) < now) \/
+  (exists src cc, f_state f = ListenToken (Some src) cc) \/
+  (exists src nps cc, f_state f = ActiveIdle (Some src) nps cc) \/
+  ((kind_of (f_state f) = KListenToken \/ kind_of (f_state f) = KActiveIdle \/
+    online_entry_kind (kind_of (f_state f)) = true) /\
+   exists l, f_lba f = Some l /\ l < now /\ token_lost_timeout (f_p f) <= now - l).
+Proof. exact poll_who. Qed.
+Print Assumptions C01_who_may_transmit.
+
+Theorem C01_builder_timeouts : forall p : params, builder_valid p -> 0 <= slot_time p /\ 0 < token_lost_timeout p.
+Proof. exact bv_timeouts. Qed.
+Print Assumptions C01_builder_timeouts.
+
+(* The pending status request of ListenToken / ActiveIdle is only ever set by an FDL status request
+   whose destination address is TS, received as the last telegram in the buffer; it records the requester. *)
+Theorem C01_status_request_is_addressed : forall (A : Type) (now : Z) (f : fdl) (w : world A) (t : telegram) (il : bool)
+                                                 (f' : fdl) (w' : world A) (src : Z),
+  (forall u, listen_token_telegram A now (f, w) t il = Ok (f', w', u) -> pending_sr (f_state f') = Some src ->
+     pending_sr (f_state f) = Some src \/ (is_request_to (ts f) src t /\ il = true)) /\
+  (handle_telegram A now f w t il = Ok (f', w') -> pending_sr (f_state f') = Some src ->
+     pending_sr (f_state f) = Some src \/ (is_request_to (ts f) src t /\ il = true)).
+Proof. exact status_request_is_addressed. Qed.
+Print Assumptions C01_status_request_is_addressed.
+
+(* At most one transmission per poll: the model's PHY takes one transmission per poll - every
+   transmission of the station and of its applications goes through `phy_transmit`, and a second call in
+   the same poll is a panic site - and under the representation invariant of C05 a poll never panics. *)
+Theorem C01_at_most_one_tx_per_poll : forall (A : Type) (ops : app_ops A), apps_total A ops ->
+  forall (f : fdl) (now : Z) (pin : phy_in) (apps : list A),
+  Rep (length apps) f -> time_ok now -> all_bytes (rx pin) ->
+  (forall (w : world A) wire x, w_tx w = Some x -> phy_transmit A w wire = Panic SiteAssert) /\
+  exists f' o apps' c, poll ops f now pin apps = Ok (f', o, apps', c).
+Proof. exact at_most_one_tx. Qed.
+Print Assumptions C01_at_most_one_tx_per_poll.
+
+(* Status replies - and every other transmission - start later than last_bus_activity + 33 bit times,
+   hence later than last_bus_activity + min Tsdr = 11 bit times (and later than the configured min Tsdr
+   whenever that is at most 33 bit). *)
+Theorem C01_reply_after_min_tsdr : forall (A : Type) (ops : app_ops A) (f : fdl) (now : Z) (pin : phy_in) (apps : list A)
+                                          (f' : fdl) (o : phy_out) (a : list A) (c : list call) (wire : bytes),
+  poll ops f now pin apps = Ok (f', o, a, c) -> tx o = Some wire ->
+  exists l, f_lba f = Some l /\
+    l + p_bits_to_time (f_p f) sync_pause_bits < now /\
+    l + p_bits_to_time (f_p f) builder_min_tsdr < now /\
+    (p_min_tsdr_bits (f_p f) <= sync_pause_bits -> l + min_tsdr_time (f_p f) < now).
+Proof. exact poll_tx_after_min_tsdr. Qed.
+Print Assumptions C01_reply_after_min_tsdr.
+
+Example C01_min_tsdr_is_11_bits : builder_min_tsdr = 11 /\ default_min_tsdr_bits = 11.
+Proof. split; reflexivity. Qed.
+
+(* The claim.  A poll takes the station from ListenToken / ActiveIdle (or from Offline, in the poll that
+   takes it online) into ClaimToken only if its last_bus_activity is known and at least
+   token_lost_timeout = bits_to_time((token_lost_base + token_lost_per_addr * TS) * slot_bits) old. *)
+Theorem C01_claim_stagger : forall (A : Type) (ops : app_ops A) (f : fdl) (now : Z) (pin : phy_in) (apps : list A)
+                                   (f' : fdl) (o : phy_out) (a : list A) (c : list call),
+  poll ops f now pin apps = Ok (f', o, a, c) ->
+  kind_of (f_state f) = KListenToken \/ kind_of (f_state f) = KActiveIdle \/
+    online_entry_kind (kind_of (f_state f)) = true ->
+  kind_of (f_state f') = KClaimToken ->
+  0 < token_lost_timeout (f_p f) ->
+  exists l, f_lba f = Some l /\ l < now /\ token_lost_timeout (f_p f) <= now - l.
+Proof. exact poll_claim_needs_timeout. Qed.
+Print Assumptions C01_claim_stagger.
+
+(* ... and that time-out is (6 + 2 * TS) slot times in microseconds as bits_to_time computes them;
+   one address more makes it 2 slot times longer (up to the 1 us rounding), strictly longer for every
+   slot time the builder accepts. *)
+Theorem C01_claim_stagger_by_address : forall (p : params) (b : baudrate) (s a : Z),
+  token_lost_timeout p = bits_to_time (p_baud p) (p_slot_bits p * (token_lost_base + token_lost_per_addr * p_address p)) /\
+  (bits_to_time b (2 * s) <= tlt b s (a + 1) - tlt b s a <= bits_to_time b (2 * s) + 1) /\
+  (min_slot_bits b <= s -> tlt b s a < tlt b s (a + 1)).
+Proof. exact claim_stagger_by_address. Qed.
+Print Assumptions C01_claim_stagger_by_address.
+
+Example C01_token_lost_constants : token_lost_base = 6 /\ token_lost_per_addr = 2.
+Proof. split; reflexivity. Qed.
